@@ -32,4 +32,6 @@ MUTANTS = [
     m("c08-twin-transposed-form", None, S, EU, "        return rng.standard_normal(state.pos.shape) @ self.metric.sqrt.T", twin=True),
     m("c08-twin-normal-loc-scale", None, S, RI, RI.replace("rng.normal(size=state.pos.shape)", "rng.normal(loc=0, scale=1, size=state.pos.shape)"), twin=True),
     m("c08-twin-cn-form", None, T, "            state.mom *= (1.0 - self.mom_resample_coeff**2) ** 0.5\n            state.mom += self.mom_resample_coeff * mom_ind", "            state.mom = (1.0 - self.mom_resample_coeff**2) ** 0.5 * state.mom + self.mom_resample_coeff * mom_ind", twin=True),
+    m("c08-bare-draw-implicit-size", "R1", "systems.py", "        return self.metric.sqrt @ rng.standard_normal(state.pos.shape)\n\n\nclass GaussianEuclideanMetricSystem", "        mom = rng.standard_normal(state.pos.shape)\n        if self.metric.shape[0] is None:\n            return mom\n        return self.metric.sqrt @ mom\n\n\nclass GaussianEuclideanMetricSystem", key="untransformed-draw-under"),
+    m("c08-twin-bare-draw-identity", None, "systems.py", "        return self.metric.sqrt @ rng.standard_normal(state.pos.shape)\n\n\nclass GaussianEuclideanMetricSystem", "        mom = rng.standard_normal(state.pos.shape)\n        if isinstance(self.metric, matrices.IdentityMatrix):\n            return mom\n        return self.metric.sqrt @ mom\n\n\nclass GaussianEuclideanMetricSystem", twin=True),
 ]
